@@ -200,13 +200,14 @@ class CircularRecord(SeqRecord):
                 _newloc = []
                 for part in (loc + index).parts:
                     if part.end >= len(newseq) and part.start >= len(newseq):
+                        # (positions are moved with `+`, which keeps their kind: open ends `<a..>b` stay open)
                         r = part.start // len(newseq)  # remainder is used to
                         _newloc.append(
                             FeatureLocation(  # make sure that part.end
                                 start=part.start
-                                - r * len(newseq),  # is always after part.start
+                                + (-r * len(newseq)),  # is always after part.start
                                 end=part.end
-                                - r * len(newseq),  # even on additional end
+                                + (-r * len(newseq)),  # even on additional end
                                 strand=part.strand,  # overlap
                                 ref=part.ref,
                                 ref_db=part.ref_db,
